@@ -37,7 +37,8 @@ def gen_cfg(rnd, i=0):
 def _gen_cfg(rnd):
     return {
         "explainer": rnd.choice(["sage", "pfi", "sage", "pfi", "batch", "interval"]),
-        "storage": rnd.choice(["uniform", "geometric", "interval", "batch", "tree", "tree"]),
+        "storage": rnd.choice(["uniform", "geometric", "interval", "batch", "tree", "tree", "library-default", "library-default"]),
+        "original_sage": rnd.random() < 0.5,
         "imputer": rnd.choice(["joint", "product", "default-arg", "tree-model", "tree-storage"]),
         "size": rnd.choice([1, 3, 10, 100]),
         "d": rnd.choice([2, 3, 4]),
@@ -144,7 +145,14 @@ def scenario_gen(cfg, seed):
     if kind in ("batch", "interval") and st_kind == "tree":
         kind = "sage"
     size = cfg["size"]
-    if st_kind == "uniform":
+    if st_kind == "library-default":
+        if kind in ("sage", "pfi"):
+            st, imp_kind = None, "library-default"
+        else:
+            st_kind = "batch" if kind == "batch" else "interval"
+    if st_kind == "library-default":
+        pass
+    elif st_kind == "uniform":
         st = UniformReservoirStorage(size=size, store_targets=True)
     elif st_kind == "geometric":
         st = GeometricReservoirStorage(size=size, store_targets=True)
@@ -155,7 +163,9 @@ def scenario_gen(cfg, seed):
     else:
         st = TreeStorage(cat_feature_names=names[:1], num_feature_names=names[1:], max_depth=3, leaf_reservoir_length=4,
                          grace_period=10, seed=cfg.get("tree_seed", 7))
-    if imp_kind in ("joint", "product"):
+    if imp_kind == "library-default":
+        imp = None
+    elif imp_kind in ("joint", "product"):
         imp = MarginalImputer(model, imp_kind, st)
     elif imp_kind == "default-arg":
         imp = None if st_kind in ("uniform", "geometric") and kind in ("sage", "pfi") else MarginalImputer(model, "joint", st)
@@ -177,7 +187,9 @@ def scenario_gen(cfg, seed):
     for t in range(steps):
         x = {n: (float(srnd.randrange(3)) if j == 0 else srnd.gauss(0, 1)) for j, n in enumerate(names)}
         y = srnd.gauss(0, 1)
-        if kind in ("batch", "interval"):
+        if kind == "batch":
+            r = e.explain_one(x, y, verbose=False, original_sage=cfg.get("original_sage", False))
+        elif kind == "interval":
             r = e.explain_one(x, y, verbose=False)
         else:
             r = e.explain_one(x, y)
@@ -187,7 +199,9 @@ def scenario_gen(cfg, seed):
             h.update(repr(sorted((repr(k), fhex(v)) for k, v in e.marginal_prediction.items())).encode())
         if hasattr(e, "variances"):
             h.update(repr(sorted((repr(k), fhex(v)) for k, v in e.variances.items())).encode())
-        if st_kind == "tree":
+        if st is None:
+            pass          # library-default storage: not reachable through the public surface, importance values are hashed
+        elif st_kind == "tree":
             h.update(repr(sorted((repr(f), sorted((leaf, [sorted((repr(k), fhex(v)) for k, v in xx.items()) for xx in res.get_data()[0]])
                                                   for leaf, res in dd.items())) for f, dd in st.data_reservoirs.items())).encode())
         else:
@@ -239,23 +253,20 @@ def main(run):
         except Exception as ex:
             run.other_error(f"scenario:{type(ex).__name__}:{str(ex)[:60]}")
             continue
-        b = scenario(cfg, seed)
-        keep = junk(jrnd)
-        c = scenario(cfg, seed)
-        other = scenario(cfg, seed + 1)
-        del keep
-        cfg_b = dict(gen_cfg(rnd, i + 1), steps=cfg["steps"] + 5)
-        try:
-            d_int = interleaved(cfg, seed, cfg_b, seed + 7)
-            run.ok(kind="interleaved-twin")
-            if d_int != a:
-                step = next((k for k, (p_, q_) in enumerate(zip(a, d_int)) if p_ != q_), None)
-                run.violation("shared-state-between-objects", f"scenario diverges at call {step} when an independent scenario {cfg_b} "
-                                                              f"runs interleaved (its generator use undone): cfg {cfg}", {"cfg": cfg, "seed": seed, "other": cfg_b})
-        except Exception as ex:
-            run.other_error(f"interleaved:{type(ex).__name__}:{str(ex)[:60]}")
-        run.ok(2, kind="in-process")
         replay = {"cfg": cfg, "seed": seed}
+        try:
+            # the scenario ran alone (a); a replay, or the same scenario after / next to other library objects, must not even raise
+            b = scenario(cfg, seed)
+            keep = junk(jrnd)
+            c = scenario(cfg, seed)
+            other = scenario(cfg, seed + 1)
+            del keep
+        except Exception as ex:
+            run.ok(kind="in-process")
+            run.violation("history-dependence", f"cfg {cfg}: the scenario ran alone, but a replay / other library objects in the same process "
+                                                f"raised {type(ex).__name__}: {ex}", replay)
+            continue
+        run.ok(2, kind="in-process")
         for name, dgs in (("second replay", b), ("replay after junk preamble", c)):
             if dgs != a:
                 step = next((i for i, (p, q) in enumerate(zip(a, dgs)) if p != q), None)
@@ -269,6 +280,17 @@ def main(run):
         if len(run.samples) < 2:
             run.sample({"cfg": cfg, "seed": seed, "digests_first_calls": a[:4], "replay_equal": a == b, "after_junk_equal": a == c,
                         "other_seed_differs": other != a})
+        cfg_b = dict(gen_cfg(rnd, i + 1), steps=cfg["steps"] + 5)
+        try:
+            d_int = interleaved(cfg, seed, cfg_b, seed + 7)
+            run.ok(kind="interleaved-twin")
+            if d_int != a:
+                step = next((k for k, (p_, q_) in enumerate(zip(a, d_int)) if p_ != q_), None)
+                run.violation("shared-state-between-objects", f"scenario diverges at call {step} when an independent scenario {cfg_b} "
+                                                              f"runs interleaved (its generator use undone): cfg {cfg}", {"cfg": cfg, "seed": seed, "other": cfg_b})
+        except Exception as ex:
+            run.violation("shared-state-between-objects", f"cfg {cfg}: raised {type(ex).__name__}: {ex} when an independent scenario ran interleaved",
+                          {"cfg": cfg, "seed": seed, "other": cfg_b})
     # ---- cross-process
     sub = [c for c, s in cfgs[:N_SUB[run.tier]]]
     seed = cfgs[0][1] if cfgs else 1
